@@ -142,3 +142,232 @@ package podgroup_info
 //@     invariant forall k in visited :: !(pgi.PodSets[k].minAvailable < len(pgi.PodSets[k].podInfos))
 //@   ensures result == (exists k in pgi.PodSets :: pgi.PodSets[k].minAvailable < len(pgi.PodSets[k].podInfos))
 //@ end
+
+// ---- job_info.go: bookkeeping (C14 JobInv) ----------------------------------------
+// Representation invariant of the job-level status index and counter cache.
+//@ define idxWF(pgi *PodGroupInfo) bool = pgi != nil && pgi.PodStatusIndex != nil && pgi.activeAllocatedCount != nil && (forall s in pgi.PodStatusIndex :: pgi.PodStatusIndex[s] != nil && allocated(pgi.PodStatusIndex[s])) && (forall s1 in pgi.PodStatusIndex :: forall s2 in pgi.PodStatusIndex :: s1 != s2 ==> pgi.PodStatusIndex[s1] != pgi.PodStatusIndex[s2])
+// ti is recorded in the job index under its current status (DESIGN C14: deleteTaskIndex keys on the status of its
+// ARGUMENT, so callers must pass a task whose status is the recorded one)
+//@ define indexed(pgi *PodGroupInfo, ti *pod_info.PodInfo) bool = ti.Status in pgi.PodStatusIndex && ti.UID in pgi.PodStatusIndex[ti.Status]
+//@ define inAA(s int) int = ite(pod_status.IsActiveAllocatedStatus(s), 1, 0)
+//@ define cacheCleared(pgi *PodGroupInfo) bool = len(pgi.tasksToAllocate) == 0 && pgi.tasksToAllocateInitResource == nil
+
+// Library model (assumed): k8s.io/utils/ptr.To is `func To[T any](v T) *T { return &v }`.
+//@ func k8s.io/utils/ptr.To
+//@   trusted
+//@   note library model of the generic one-liner ptr.To: a fresh cell holding a copy of the argument
+//@   fresh
+//@   ensures *result == v
+//@ end
+
+// C14: "pod counts per status": the job-level count of active allocated pods moves by the indicator of ti.Status.
+//@ func (*PodGroupInfo).addTaskIndex
+//@   props C14
+//@   requires idxWF(pgi) && ti != nil
+//@   modifies pgi.PodStatusIndex[ti.Status][ti.UID], pgi.PodStatusIndex[ti.Status], pgi.activeAllocatedCount, pgi.tasksToAllocate, pgi.tasksToAllocateInitResource
+//@   ensures [count] *pgi.activeAllocatedCount == old(*pgi.activeAllocatedCount) + inAA(ti.Status)
+//@   ensures [indexed] indexed(pgi, ti) && pgi.PodStatusIndex[ti.Status][ti.UID] == ti
+//@   ensures [sameBucket] old(ti.Status in pgi.PodStatusIndex) ==> pgi.PodStatusIndex[ti.Status] == old(pgi.PodStatusIndex[ti.Status])
+//@   ensures [newBucket] !old(ti.Status in pgi.PodStatusIndex) ==> fresh(pgi.PodStatusIndex[ti.Status])
+//@   ensures [cache] cacheCleared(pgi)
+//@   ensures idxWF(pgi)
+//@ end
+
+// C14: mirror of addTaskIndex. Precondition from the call sites (DESIGN C14): ti is indexed under ti.Status.
+// "PodStatusIndex[s] = {t | status s} with no empty buckets".
+//@ func (*PodGroupInfo).deleteTaskIndex
+//@   props C14
+//@   requires idxWF(pgi) && ti != nil && indexed(pgi, ti)
+//@   modifies pgi.PodStatusIndex[ti.Status][ti.UID], pgi.PodStatusIndex[ti.Status], pgi.activeAllocatedCount, pgi.tasksToAllocate, pgi.tasksToAllocateInitResource
+//@   ensures [count] *pgi.activeAllocatedCount == old(*pgi.activeAllocatedCount) - inAA(ti.Status)
+//@   ensures [removed] !(ti.UID in old(pgi.PodStatusIndex[ti.Status]))
+//@   ensures [sameBucket] ti.Status in pgi.PodStatusIndex ==> pgi.PodStatusIndex[ti.Status] == old(pgi.PodStatusIndex[ti.Status])
+//@   # the two len() facts are lemmas (proved, not exported): at call sites len(<map lookup>) makes the engine emit a quantifier pattern containing ite, which every solver rejects
+//@   lemma [noEmptyBucket] ti.Status in pgi.PodStatusIndex ==> len(pgi.PodStatusIndex[ti.Status]) > 0
+//@   lemma [bucketDropped] !(ti.Status in pgi.PodStatusIndex) ==> old(len(pgi.PodStatusIndex[ti.Status])) == 1
+//@   ensures [cache] cacheCleared(pgi)
+//@   ensures idxWF(pgi)
+//@ end
+
+// C14 "gang counters": the cached job-level count. The count over all pods is abstract (no closed formula over maps):
+// with a filled cache the cached value is returned unchanged; the recount branch only guarantees a filled cache and
+// a non-negative value.
+//@ func (*PodGroupInfo).GetActiveAllocatedTasksCount
+//@   props C14 C03 C06
+//@   requires pgi != nil && (pgi.activeAllocatedCount == nil ==> allTasksOK(pgi))
+//@   modifies pgi.activeAllocatedCount
+//@   loop 1
+//@     invariant taskCount >= 0
+//@   ensures [cached] old(pgi.activeAllocatedCount) != nil ==> pgi.activeAllocatedCount == old(pgi.activeAllocatedCount) && result == old(*pgi.activeAllocatedCount)
+//@   ensures [filled] pgi.activeAllocatedCount != nil && result == *pgi.activeAllocatedCount
+//@   ensures [recount] old(pgi.activeAllocatedCount) == nil ==> result >= 0
+//@ end
+
+// All pods of the workload: every entry of the result is the pod of some pod set, the result is a new map.
+//@ func (*PodGroupInfo).GetAllPodsMap
+//@   props C14 C03 C06 C10
+//@   requires setsOK(pgi)
+//@   fresh
+//@   loop 1
+//@     invariant allPods != nil && fresh(allPods)
+//@     invariant forall id in allPods :: exists k in pgi.PodSets :: id in pgi.PodSets[k].podInfos && allPods[id] == pgi.PodSets[k].podInfos[id]
+//@   loop 2
+//@     invariant allPods != nil && fresh(allPods)
+//@     invariant exists k in pgi.PodSets :: pgi.PodSets[k] == subGroup
+//@     invariant forall id in allPods :: exists k in pgi.PodSets :: id in pgi.PodSets[k].podInfos && allPods[id] == pgi.PodSets[k].podInfos[id]
+//@   ensures result != nil
+//@   ensures [members] forall id in result :: exists k in pgi.PodSets :: id in pgi.PodSets[k].podInfos && result[id] == pgi.PodSets[k].podInfos[id]
+//@ end
+
+// the pod set a task belongs to
+//@ define sgName(ti *pod_info.PodInfo) string = ite(ti.SubGroupName != "", ti.SubGroupName, "default")
+// every pod set is well formed and shares no map with the job-level index
+//@ define sepIdx(pgi *PodGroupInfo, ps *sgi.PodSet) bool = ps.podStatusIndex != pgi.PodStatusIndex && (forall s in pgi.PodStatusIndex :: pgi.PodStatusIndex[s] != ps.podInfos && (forall s2 in ps.podStatusIndex :: pgi.PodStatusIndex[s] != ps.podStatusIndex[s2]))
+//@ define allPsWF(pgi *PodGroupInfo) bool = forall k in pgi.PodSets :: sgi.psWF(pgi.PodSets[k]) && sepIdx(pgi, pgi.PodSets[k])
+// preconditions of the resource_info arithmetic used for Allocated / AllocatedVector (taken from those contracts)
+//@ define accOK(pgi *PodGroupInfo, req *resource_info.ResourceRequirements, vec resource_info.ResourceVector) bool = pgi.Allocated != nil && pgi.Allocated.scalarResources != nil && req != nil && pgi.Allocated.scalarResources != req.scalarResources && pgi.Allocated.scalarResources != req.migResources && (len(pgi.AllocatedVector) > 0 && len(vec) > 0 ==> resource_info.distinctArrays(pgi.AllocatedVector, vec) && len(pgi.AllocatedVector) >= len(vec))
+//@ define isAlloc(s int) bool = pod_status.AllocatedStatus(s)
+
+// C14 JobInv, step "add": pod-set counters, job index/count and Allocated all move by the contribution of ti under ti.Status.
+// A task naming an unknown sub-group is ignored (C10: no panic) and changes nothing that is counted.
+//@ func (*PodGroupInfo).AddTaskInfo
+//@   props C14 C10
+//@   requires ti != nil
+//@   requires idxWF(pgi)
+//@   requires allPsWF(pgi)
+//@   requires accOK(pgi, ti.ResReq, ti.ResReqVector)
+//@   modifies pgi.PodSets[sgName(ti)].podStatusIndex[pgi.PodSets[sgName(ti)].podStatusMap[ti.UID]][ti.UID], pgi.PodSets[sgName(ti)].podStatusIndex[ti.Status][ti.UID], pgi.PodSets[sgName(ti)].podStatusIndex[ti.Status], pgi.PodSets[sgName(ti)].podStatusMap[ti.UID], pgi.PodSets[sgName(ti)].podInfos[ti.UID]
+//@   modifies pgi.PodSets[sgName(ti)].schedulingConstraintsSignature, pgi.PodSets[sgName(ti)].numActiveAllocatedTasks, pgi.PodSets[sgName(ti)].numActiveUsedTasks, pgi.PodSets[sgName(ti)].numAliveTasks
+//@   modifies pgi.PodStatusIndex[ti.Status][ti.UID], pgi.PodStatusIndex[ti.Status], pgi.activeAllocatedCount, pgi.tasksToAllocate, pgi.tasksToAllocateInitResource
+//@   modifies pgi.Allocated.milliCpu, pgi.Allocated.memory, pgi.Allocated.gpus, pgi.Allocated.scalarResources[*], pgi.AllocatedVector[*]
+//@   ensures [podsetInfos] sgName(ti) in pgi.PodSets ==> pgi.PodSets[sgName(ti)].podInfos[ti.UID] == ti
+//@   ensures [podsetStatus] sgName(ti) in pgi.PodSets ==> ti.UID in pgi.PodSets[sgName(ti)].podStatusMap && pgi.PodSets[sgName(ti)].podStatusMap[ti.UID] == ti.Status
+//@   ensures [aa] sgName(ti) in pgi.PodSets ==> pgi.PodSets[sgName(ti)].numActiveAllocatedTasks == old(pgi.PodSets[sgName(ti)].numActiveAllocatedTasks) - old(ite(ti.UID in pgi.PodSets[sgName(ti)].podStatusMap, inAA(pgi.PodSets[sgName(ti)].podStatusMap[ti.UID]), 0)) + inAA(ti.Status)
+//@   ensures [count] *pgi.activeAllocatedCount == old(*pgi.activeAllocatedCount) + ite(sgName(ti) in pgi.PodSets, inAA(ti.Status), 0)
+//@   ensures [indexed] sgName(ti) in pgi.PodSets ==> indexed(pgi, ti) && pgi.PodStatusIndex[ti.Status][ti.UID] == ti
+//@   ensures [allocCpu] pgi.Allocated.milliCpu == old(pgi.Allocated.milliCpu) + ite(sgName(ti) in pgi.PodSets && isAlloc(ti.Status), ti.ResReq.milliCpu, 0.0)
+//@   ensures [allocMem] pgi.Allocated.memory == old(pgi.Allocated.memory) + ite(sgName(ti) in pgi.PodSets && isAlloc(ti.Status), ti.ResReq.memory, 0.0)
+//@   ensures [allocGpuSame] !(sgName(ti) in pgi.PodSets && isAlloc(ti.Status)) ==> pgi.Allocated.gpus == old(pgi.Allocated.gpus)
+//@   ensures idxWF(pgi)
+//@ end
+
+// The job's record for ti.UID is the object ti itself (true for every task taken from the job's own maps, as the
+// Statement operations do). DESIGN C14: resetTaskState subtracts by the STORED task but un-indexes by the ARGUMENT's
+// status, so the bookkeeping is only right when they agree; made a precondition, to be proved at the call sites.
+//@ define stored(pgi *PodGroupInfo, ti *pod_info.PodInfo) bool = forall k in pgi.PodSets :: ti.UID in pgi.PodSets[k].podInfos ==> pgi.PodSets[k].podInfos[ti.UID] == ti
+//@ define inSomePodSet(pgi *PodGroupInfo, ti *pod_info.PodInfo) bool = exists k in pgi.PodSets :: ti.UID in pgi.PodSets[k].podInfos
+
+// C14 JobInv, step "remove from the job-level accounting" (the pod-set record is replaced later by AssignTask).
+//@ func (*PodGroupInfo).resetTaskState
+//@   props C14
+//@   requires idxWF(pgi) && allPsWF(pgi) && allTasksOK(pgi) && ti != nil && indexed(pgi, ti) && stored(pgi, ti) && accOK(pgi, ti.ResReq, ti.ResReqVector)
+//@   modifies pgi.PodStatusIndex[ti.Status][ti.UID], pgi.PodStatusIndex[ti.Status], pgi.activeAllocatedCount, pgi.tasksToAllocate, pgi.tasksToAllocateInitResource
+//@   modifies pgi.Allocated.milliCpu, pgi.Allocated.memory, pgi.Allocated.gpus, pgi.Allocated.scalarResources[*], pgi.AllocatedVector[*]
+//@   ensures [knownTask] result == nil ==> old(inSomePodSet(pgi, ti))
+//@   ensures [errNoChange] result != nil ==> *pgi.activeAllocatedCount == old(*pgi.activeAllocatedCount) && pgi.Allocated.milliCpu == old(pgi.Allocated.milliCpu) && pgi.Allocated.memory == old(pgi.Allocated.memory) && pgi.Allocated.gpus == old(pgi.Allocated.gpus) && indexed(pgi, ti)
+//@   ensures [count] result == nil ==> *pgi.activeAllocatedCount == old(*pgi.activeAllocatedCount) - inAA(ti.Status)
+//@   ensures [unindexed] result == nil ==> !(ti.UID in old(pgi.PodStatusIndex[ti.Status]))
+//@   ensures [sameBucket] ti.Status in pgi.PodStatusIndex ==> pgi.PodStatusIndex[ti.Status] == old(pgi.PodStatusIndex[ti.Status])
+//@   ensures [allocCpu] result == nil ==> pgi.Allocated.milliCpu == old(pgi.Allocated.milliCpu) - ite(isAlloc(ti.Status), ti.ResReq.milliCpu, 0.0)
+//@   ensures [allocMem] result == nil ==> pgi.Allocated.memory == old(pgi.Allocated.memory) - ite(isAlloc(ti.Status), ti.ResReq.memory, 0.0)
+//@   ensures [allocGpuSame] !isAlloc(ti.Status) ==> pgi.Allocated.gpus == old(pgi.Allocated.gpus)
+//@   ensures idxWF(pgi)
+//@   ensures [sep] allPsWF(pgi)
+//@   ensures [acc] accOK(pgi, ti.ResReq, ti.ResReqVector)
+//@ end
+
+// C14 mechanism "UpdateTaskStatus = resetTaskState + AddTaskInfo": on success the task carries the new status and every
+// counter has moved from the contribution of the old status to that of the new one; on failure nothing counted changed.
+// JobInv(pgi) for callers = idxWF(pgi) && allPsWF(pgi) && allTasksOK(pgi); per call: indexed/stored/accOK of the task.
+//@ func (*PodGroupInfo).UpdateTaskStatus
+//@   props C14 C13
+//@   requires idxWF(pgi) && allPsWF(pgi) && allTasksOK(pgi) && task != nil && indexed(pgi, task) && stored(pgi, task) && accOK(pgi, task.ResReq, task.ResReqVector)
+//@   modifies task.Status
+//@   modifies pgi.PodSets[sgName(task)].podStatusIndex[pgi.PodSets[sgName(task)].podStatusMap[task.UID]][task.UID], pgi.PodSets[sgName(task)].podStatusIndex[status][task.UID], pgi.PodSets[sgName(task)].podStatusIndex[status], pgi.PodSets[sgName(task)].podStatusMap[task.UID], pgi.PodSets[sgName(task)].podInfos[task.UID]
+//@   modifies pgi.PodSets[sgName(task)].schedulingConstraintsSignature, pgi.PodSets[sgName(task)].numActiveAllocatedTasks, pgi.PodSets[sgName(task)].numActiveUsedTasks, pgi.PodSets[sgName(task)].numAliveTasks
+//@   modifies pgi.PodStatusIndex[task.Status][task.UID], pgi.PodStatusIndex[*], pgi.PodStatusIndex[status][task.UID], pgi.activeAllocatedCount, pgi.tasksToAllocate, pgi.tasksToAllocateInitResource
+//@   modifies pgi.Allocated.milliCpu, pgi.Allocated.memory, pgi.Allocated.gpus, pgi.Allocated.scalarResources[*], pgi.AllocatedVector[*]
+//@   ensures [status] (result == nil ==> task.Status == status) && (result != nil ==> task.Status == old(task.Status))
+//@   ensures [errNoChange] result != nil ==> *pgi.activeAllocatedCount == old(*pgi.activeAllocatedCount) && pgi.Allocated.milliCpu == old(pgi.Allocated.milliCpu) && pgi.Allocated.memory == old(pgi.Allocated.memory)
+//@   ensures [count] result == nil ==> *pgi.activeAllocatedCount == old(*pgi.activeAllocatedCount) - inAA(old(task.Status)) + ite(sgName(task) in pgi.PodSets, inAA(status), 0)
+//@   ensures [aa] result == nil && sgName(task) in pgi.PodSets ==> pgi.PodSets[sgName(task)].numActiveAllocatedTasks == old(pgi.PodSets[sgName(task)].numActiveAllocatedTasks) - old(ite(task.UID in pgi.PodSets[sgName(task)].podStatusMap, inAA(pgi.PodSets[sgName(task)].podStatusMap[task.UID]), 0)) + inAA(status)
+//@   ensures [allocCpu] result == nil ==> pgi.Allocated.milliCpu == old(pgi.Allocated.milliCpu) - ite(isAlloc(old(task.Status)), task.ResReq.milliCpu, 0.0) + ite(sgName(task) in pgi.PodSets && isAlloc(status), task.ResReq.milliCpu, 0.0)
+//@   ensures [allocMem] result == nil ==> pgi.Allocated.memory == old(pgi.Allocated.memory) - ite(isAlloc(old(task.Status)), task.ResReq.memory, 0.0) + ite(sgName(task) in pgi.PodSets && isAlloc(status), task.ResReq.memory, 0.0)
+//@   ensures [indexed] result == nil && sgName(task) in pgi.PodSets ==> indexed(pgi, task)
+//@   # frame of the job-level index is `pgi.PodStatusIndex[*]` + [otherBuckets]: the two-key form `[task.Status], [status]` is true but no solver finishes the frame query
+//@   ensures [otherBuckets] forall s int :: s != old(task.Status) && s != status ==> (s in pgi.PodStatusIndex <==> old(s in pgi.PodStatusIndex)) && pgi.PodStatusIndex[s] == old(pgi.PodStatusIndex[s])
+//@   ensures idxWF(pgi)
+//@ end
+
+// ---- priority-queue consumers (scheduler_util.PriorityQueue: counts and membership only, order external) ----------
+//@ define allTasks(q *scheduler_util.PriorityQueue) bool = forall i int :: 0 <= i && i < len(q.queue.items) ==> typeis(q.queue.items[i], "*pod_info.PodInfo")
+//@ define allPodSets(q *scheduler_util.PriorityQueue) bool = forall i int :: 0 <= i && i < len(q.queue.items) ==> typeis(q.queue.items[i], "*sgi.PodSet") && unbox(q.queue.items[i], "*sgi.PodSet") != nil
+
+// C03 top (allocation side): from a pod set's queue of waiting tasks exactly the requested number is taken, or all of
+// them if fewer are waiting: with getNumTasksToAllocate this is "exactly min - allocated tasks" whenever enough pending.
+//@ func getTasksFromQueue
+//@   props C03
+//@   requires priorityQueue != nil && allTasks(priorityQueue)
+//@   modifies priorityQueue.queue.items, priorityQueue.queue.items[*]
+//@   loop 1
+//@     invariant priorityQueue != nil && allTasks(priorityQueue)
+//@     invariant len(tasksToAllocate) >= 0 && len(tasksToAllocate) + len(priorityQueue.queue.items) == old(len(priorityQueue.queue.items))
+//@     invariant len(tasksToAllocate) <= max(maxNumTasks, 0)
+//@     decreases len(priorityQueue.queue.items)
+//@   ensures [exactCount] len(result) == min(max(maxNumTasks, 0), old(len(priorityQueue.queue.items)))
+//@   ensures [rest] len(priorityQueue.queue.items) == old(len(priorityQueue.queue.items)) - len(result)
+//@ end
+
+// C03 top (eviction side): one surplus task or all active allocated tasks of the pod set (getMaxTasksToEvict) are taken.
+//@ func getTasksToEvictFromQueue
+//@   props C03
+//@   requires priorityQueue != nil && allTasks(priorityQueue)
+//@   modifies priorityQueue.queue.items, priorityQueue.queue.items[*]
+//@   loop 1
+//@     invariant priorityQueue != nil && allTasks(priorityQueue)
+//@     invariant numEvictedTasks == len(tasks) && numEvictedTasks >= 0 && numEvictedTasks + len(priorityQueue.queue.items) == old(len(priorityQueue.queue.items))
+//@     invariant numEvictedTasks <= max(maxTasksToEvict, 0)
+//@     decreases len(priorityQueue.queue.items)
+//@   ensures [exactCount] len(result) == min(max(maxTasksToEvict, 0), old(len(priorityQueue.queue.items)))
+//@   ensures [rest] len(priorityQueue.queue.items) == old(len(priorityQueue.queue.items)) - len(result)
+//@ end
+
+// queue of the tasks of one pod set that still have to be placed: only such tasks, only tasks of this pod set
+//@ func getTasksPriorityQueue
+//@   props C03
+//@   requires tasksOK(subGroup)
+//@   fresh
+//@   loop 1
+//@     invariant priorityQueue != nil && fresh(priorityQueue) && allTasks(priorityQueue) && priorityQueue.maxQueueSize == scheduler_util.QueueCapacityInfinite
+//@     invariant forall i int :: 0 <= i && i < len(priorityQueue.queue.items) ==> wantsAlloc(unbox(priorityQueue.queue.items[i], "*pod_info.PodInfo"), isRealAllocation)
+//@     invariant len(priorityQueue.queue.items) > 0 <==> (exists k in visited :: k in subGroup.podInfos && wantsAlloc(subGroup.podInfos[k], isRealAllocation))
+//@   ensures result != nil && allTasks(result)
+//@   ensures [onlyWaiting] forall i int :: 0 <= i && i < len(result.queue.items) ==> wantsAlloc(unbox(result.queue.items[i], "*pod_info.PodInfo"), isRealAllocation)
+//@   ensures [nonEmptyIffWaiting] len(result.queue.items) > 0 <==> (exists k in subGroup.podInfos :: wantsAlloc(subGroup.podInfos[k], isRealAllocation))
+//@ end
+
+// queue of the active allocated tasks of one pod set (eviction candidates)
+//@ func getTasksToEvictPriorityQueue
+//@   props C03
+//@   requires tasksOK(subGroup)
+//@   fresh
+//@   loop 1
+//@     invariant podPriorityQueue != nil && fresh(podPriorityQueue) && allTasks(podPriorityQueue) && podPriorityQueue.maxQueueSize == scheduler_util.QueueCapacityInfinite
+//@     invariant forall i int :: 0 <= i && i < len(podPriorityQueue.queue.items) ==> pod_status.inActiveAllocated(unbox(podPriorityQueue.queue.items[i], "*pod_info.PodInfo").Status)
+//@   ensures result != nil && allTasks(result)
+//@   ensures [onlyActiveAllocated] forall i int :: 0 <= i && i < len(result.queue.items) ==> pod_status.inActiveAllocated(unbox(result.queue.items[i], "*pod_info.PodInfo").Status)
+//@ end
+
+// queue of all pod sets of the workload
+//@ func getSubGroupsPriorityQueue
+//@   props C03
+//@   requires forall k in subGroups :: subGroups[k] != nil
+//@   fresh
+//@   loop 1
+//@     invariant priorityQueue != nil && fresh(priorityQueue) && allPodSets(priorityQueue) && priorityQueue.maxQueueSize == scheduler_util.QueueCapacityInfinite
+//@     invariant forall i int :: 0 <= i && i < len(priorityQueue.queue.items) ==> (exists k in subGroups :: subGroups[k] == unbox(priorityQueue.queue.items[i], "*sgi.PodSet"))
+//@     invariant len(priorityQueue.queue.items) > 0 <==> (exists k in visited :: k in subGroups)
+//@   ensures result != nil && allPodSets(result)
+//@   ensures [members] forall i int :: 0 <= i && i < len(result.queue.items) ==> (exists k in subGroups :: subGroups[k] == unbox(result.queue.items[i], "*sgi.PodSet"))
+//@   ensures [nonEmpty] len(result.queue.items) > 0 <==> len(subGroups) > 0
+//@ end
